@@ -1385,8 +1385,14 @@ def num_method(ev, x: Num, name, args, kwargs, fr, node):
     if name == "round":
         return x.like(round_term(x.expr), unit=x.unit)
     if name == "copy":
-        return x
+        return x.like(x.expr, unit=x.unit, cls=x.cls, tag=x.tag)        # a new array object (in-place operators on it do not reach x)
     if name in ("min", "max"):
+        if not args and not kwargs and (not x.shape or all(d_ == 1 for d_ in x.shape)):
+            # a scalar / single-element array: its extremum is the element itself
+            return Num(x.expr, kind=x.kind if x.kind != "array" else "number", unit=x.unit, isfloat=x.isfloat)
+        mx = nd_materialize(x) if not args and not kwargs else None
+        if mx is not None:
+            return nd_method(ev, mx, name, [], {}, fr, node)
         fn = "RMin" if name == "min" else "RMax"
         return Num(sp.Function(fn)(x.expr), kind=x.kind if x.kind != "array" else "number", unit=x.unit)
     if name == "compute":
